@@ -275,6 +275,27 @@ func c04Run(c *Ctx) {
 			doList(e, []string{}, false)
 		}
 	}
+	// long lists: the core cycled with different strides (invalid entries at many positions)
+	longLens := []int{63, 64, 65, 66, 100, 128, 129, 257}
+	if c.Thorough() {
+		longLens = append(longLens, 512, 1000, 1025, 4097)
+	}
+	c.Bound("long_lists", map[string]any{"lengths": longLens, "strides": []int{1, 5, 7}, "repeats_per_list": 3})
+	for _, n := range longLens {
+		for _, stride := range []int{1, 5, 7} {
+			li++
+			if !c.Mine(li) {
+				continue
+			}
+			l := make([]string, n)
+			for i := range l {
+				l[i] = c04Core[(i*stride+n)%len(c04Core)]
+			}
+			for rep := 0; rep < 3; rep++ { // repeated: the answer must also be the same every time
+				doList("MIT", l, false)
+			}
+		}
+	}
 	for k := 1; k <= K; k++ {
 		forSeqs(len(c04Core), k, &li, func(i int64, s []int) bool {
 			if !c.Mine(i) {
